@@ -1,0 +1,101 @@
+//go:build verif
+
+package ugo
+
+import "sort"
+
+// Verification hooks (add-only, compiled only with -tags verif): read-only
+// accessors to unexported SymbolTable state and entry points to unexported
+// functions, used by the correspondence harness of the Lean model.
+
+// VerifSymbol is a by-value view of a Symbol.
+type VerifSymbol struct {
+	Name     string
+	Index    int
+	Scope    SymbolScope
+	Assigned bool
+	Constant bool
+}
+
+func verifSym(s *Symbol) VerifSymbol {
+	return VerifSymbol{Name: s.Name, Index: s.Index, Scope: s.Scope, Assigned: s.Assigned, Constant: s.Constant}
+}
+
+// VerifSymbolTableState is a canonical (map order free) dump of one scope.
+type VerifSymbolTableState struct {
+	HasParent         bool
+	MaxDefinition     int
+	NumDefinition     int
+	NumParams         int
+	Store             []VerifSymbol // sorted by name
+	DisabledNil       bool
+	Disabled          []string // sorted
+	Frees             []VerifSymbol
+	Shadowed          []string // insertion order
+	Block             bool
+	DisableParams     bool
+	HasConstLit       bool
+	HasParentConstLit bool
+}
+
+// VerifState dumps the unexported state of st (not of its parents).
+func (st *SymbolTable) VerifState() VerifSymbolTableState {
+	r := VerifSymbolTableState{
+		HasParent:         st.parent != nil,
+		MaxDefinition:     st.maxDefinition,
+		NumDefinition:     st.numDefinition,
+		NumParams:         st.numParams,
+		DisabledNil:       st.disabledBuiltins == nil,
+		Block:             st.block,
+		DisableParams:     st.disableParams,
+		HasConstLit:       st.hasConstLit,
+		HasParentConstLit: st.hasParentConstLit,
+	}
+	for _, s := range st.store {
+		r.Store = append(r.Store, verifSym(s))
+	}
+	sort.Slice(r.Store, func(i, j int) bool { return r.Store[i].Name < r.Store[j].Name })
+	for n := range st.disabledBuiltins {
+		r.Disabled = append(r.Disabled, n)
+	}
+	sort.Strings(r.Disabled)
+	for _, s := range st.frees {
+		r.Frees = append(r.Frees, verifSym(s))
+	}
+	r.Shadowed = append(r.Shadowed, st.shadowedBuiltins...)
+	return r
+}
+
+// VerifNextIndex calls the unexported nextIndex.
+func (st *SymbolTable) VerifNextIndex() int { return st.nextIndex() }
+
+// VerifDefineConstLit calls the unexported defineConstLit.
+func (st *SymbolTable) VerifDefineConstLit(name string) (VerifSymbol, bool) {
+	s, ok := st.defineConstLit(name)
+	return verifSym(s), ok
+}
+
+// VerifEvalResetCompiler runs the real optimizerEval.resetCompiler (which builds
+// the optimizer's private evaluator symbol table) for an evaluator whose
+// current table is evTable (nil: none yet) and an optimizer whose compiler
+// symbol table is comp and whose scope chain has the given shadowed lists
+// (innermost first; nil scope chain when empty). It returns the evaluator's table.
+func VerifEvalResetCompiler(evTable, comp *SymbolTable, shadowed [][]string) *SymbolTable {
+	var sc *optimizerScope
+	for i := len(shadowed) - 1; i >= 0; i-- {
+		sc = &optimizerScope{parent: sc, shadowed: append([]string(nil), shadowed[i]...)}
+	}
+	var ev optimizerEval
+	ev.symtab = evTable
+	so := &SimpleOptimizer{compSymTab: comp, scope: sc}
+	ev.resetCompiler(so)
+	return ev.symtab
+}
+
+// VerifNewModuleTable builds a module's root table the way compileModule does
+// (compiler.go: NewSymbolTable + copyMapStringSet(c.symbolTable.disabledBuiltinsMap())).
+func VerifNewModuleTable(compilerTable *SymbolTable) *SymbolTable {
+	symbolTable := NewSymbolTable()
+	symbolTable.disabledBuiltins = copyMapStringSet(compilerTable.disabledBuiltinsMap())
+	return symbolTable
+}
